@@ -225,6 +225,10 @@ type Options struct {
 	Bound    int // maximum number of preemptions
 	MaxExecs int // safety cap on executions (0 = none); hitting it sets Stats.Capped
 	MaxSteps int // horizon per execution (0 = none)
+	// Stride > 1 thins the *preemption* points to every Stride-th scheduling step (a declared
+	// sub-alphabet; with a prime stride the offsets rotate through loop bodies across iterations).
+	// Non-preemptive choices (the running thread finished or blocked) are always all explored.
+	Stride int
 }
 
 // Explore enumerates every schedule of body's threads with at most opt.Bound
@@ -255,6 +259,9 @@ func Explore(opt Options, body func(e *Exec)) Stats {
 			cost := e.preemptionsBefore(i)
 			if p.runningStillEnabled {
 				cost++
+				if opt.Stride > 1 && i%opt.Stride != 0 {
+					continue
+				}
 			}
 			if cost > opt.Bound {
 				continue
